@@ -77,8 +77,23 @@ def skeletons(depth):
     return res
 
 
+# a condition is a cell most of the time, otherwise an expression over that cell (also ones that START with a literal)
+COND_FORMS = ['{c}'] * 12 + ['{c}>0', '{c}<>0', 'TRUE={c}', 'FALSE<>{c}', '{c}=TRUE', '{c}<>FALSE', '1={c}', '{c}=1', '({c})', '{c}+0', '0+{c}', '{c}*1', '-{c}',
+                             '{c}={c}', '{c}<>{c}', 'FALSE+{c}', 'TRUE*{c}', '1*{c}', '0<{c}', '0={c}', 'TRUE', 'FALSE', '1', '0', '0.5', 'TRUE=TRUE', 'FALSE=({c})']
+
+
+class _Conds:
+    def __init__(self, it, rng):
+        self.it, self.rng = it, rng
+
+    def __next__(self):
+        return self.rng.choice(COND_FORMS).format(c=next(self.it))
+
+
 def render(sk, rng, leaves, conds):
     """-> text; conds: iterator of condition cells"""
+    if not isinstance(conds, _Conds):
+        conds = _Conds(conds, rng)
     if sk == 'L':
         return rng.choice(leaves.ok) if rng.random() < 0.7 else rng.choice(leaves.err)
     k = sk[0]
@@ -115,7 +130,7 @@ def build_items(rng, tier):
             items.append(('=' + ctpl.format(body), cname, 3, body))
     for sk in sks:
         for (cname, ctpl, ckind) in CONTEXTS:
-            reps = 3 if tier == 'quick' else 6
+            reps = 5 if tier == "quick" else 9
             for _ in range(reps):
                 leaves = NUM_LEAVES if ckind == 'num' else TXT_LEAVES if ckind == 'txt' else rng.choice([NUM_LEAVES, TXT_LEAVES])
                 conds = itertools.cycle(CONDS)
